@@ -1725,7 +1725,46 @@ def dec_set_scale(it, args, callee):
 
 @model('rust_decimal::Decimal::rescale', 'Decimal::rescale')
 def dec_rescale(it, args, callee):
-    raise OutsideModel('Decimal::rescale (rounding)')
+    """rust_decimal 1.31 ops::array::rescale::<true>: scaling down truncates digit by digit and rounds on the last removed
+    digit only (>= 5 rounds the magnitude up); scaling up multiplies by ten while the 96-bit mantissa does not overflow
+    and silently stops at the largest scale that fits"""
+    r, new = args
+    new = it.concretize(new, limit=64)
+    d = rd(r)
+    if d.s == new:
+        return UNIT
+    if is_zero(it, d.m):
+        wr(r, Dec(0, min(new, 28)))
+        return UNIT
+    neg = it.truth(d.m < 0) if is_sym(d.m) else d.m < 0
+    mag = -d.m if neg else d.m
+    if is_sym(mag):
+        mag = simp(mag)
+    if d.s > new:
+        rem = 0
+        for _ in range(d.s - new):
+            if is_zero(it, mag):
+                wr(r, Dec(0, new))
+                return UNIT
+            if is_sym(mag):
+                mag, rem = simp(mag / 10), simp(mag % 10)
+            else:
+                mag, rem = divmod(mag, 10)
+        up = it.truth(rem >= 5) if is_sym(rem) else rem >= 5
+        if up:
+            mag = mag + 1
+            # the carry of the original is dropped beyond 96 bits (cannot happen after a division by ten)
+        wr(r, Dec((-mag if neg else mag), new))
+        return UNIT
+    diff = new - d.s
+    while diff > 0:
+        nxt = mag * 10
+        if not fits96(it, nxt):
+            break
+        mag = simp(nxt) if is_sym(nxt) else nxt
+        diff -= 1
+    wr(r, Dec((-mag if neg else mag), new - diff))
+    return UNIT
 
 
 @pattern(r'^rust_decimal::Decimal::round(_dp|_dp_with_strategy|_sf)?$')
